@@ -406,6 +406,10 @@ func TestC10(t *testing.T) {
 						}
 					}
 					r.Eval(fmt.Sprintf("real/fep=%v/imported=%d/exits=%d", cfg.FEP, min(len(mc.Cert.ImportedBridgeExits), 3), min(len(mc.Cert.BridgeExits), 3)))
+					if len(mc.Cert.ImportedBridgeExits) > 0 && len(mc.Cert.BridgeExits) > 0 {
+						r.Sample(map[string]any{"plane": "real flow", "config": cfg, "certificate": label, "bridge_exits": len(mc.Cert.BridgeExits), "imported_bridge_exits": len(mc.Cert.ImportedBridgeExits),
+							"commitment_recomputed_from_wire": pbCommitmentHex(mc.Cert, cfg.FEP), "signer_recovered": true, "stored_copy_compared": a.node != nil})
+					}
 				}
 			}
 			a.finish()
@@ -433,6 +437,13 @@ func TestC10(t *testing.T) {
 					return
 				}
 				base := commitsOf(c)
+				if i < 2 {
+					var names []string
+					for _, p := range c10Perturbations(c, g) {
+						names = append(names, p.name)
+					}
+					r.Sample(map[string]any{"plane": "random certificate", "fep": fep, "exits": len(c.BridgeExits), "imported": len(c.ImportedBridgeExits), "fields_perturbed": names})
+				}
 				for _, p := range c10Perturbations(c, g) {
 					saved, _ := json.Marshal(c)
 					undo := p.apply()
@@ -489,4 +500,13 @@ func fieldClass(name string) string {
 		}
 	}
 	return string(out)
+}
+
+func pbCommitmentHex(c *agglayertypes.Certificate, fep bool) string {
+	if fep {
+		if ad, ok := c.AggchainData.(*agglayertypes.AggchainDataProof); ok {
+			return refFEPCommitment(c, ad.AggchainParams).Hex()
+		}
+	}
+	return refPPCommitment(c).Hex()
 }
